@@ -7,7 +7,7 @@ ID = 'C10'
 def run(tier, seed, only=None):
     from contracts import session as CS
     lemmas = LEMMAS(ID)
-    return run_session(ID, tier, seed, only=only, select=lambda u: u.name.split('.')[0] == 'BGP' or u.name.endswith('_time_event'), lemmas=lemmas)
+    return run_session(ID, tier, seed, only=only, with_decoders=True, select=lambda u: u.name.split('.')[0] == 'BGP' or u.name.endswith('_time_event') or u.name in ('FSM.update_received', 'FSM.keep_alive_received', 'FSM.open_received', 'FSM.notification_received', 'FSM.header_error', 'FSM.open_message_error', 'FSM._error_close'), lemmas=lemmas)
 
 
 def LEMMAS(pid):
